@@ -1,4 +1,6 @@
 import QV.Proofs.Arith
+import QV.Proofs.Mul
+import QV.Proofs.Front6
 import QV.Model.Front
 /-!
 # C01 – Boolean expressions mean what the Python source means
@@ -10,15 +12,23 @@ import QV.Model.Front
 > outside the supported subset is rejected with an exception, never silently translated into a
 > different function.
 
-What is proved here (**partial**): the specification of the bit-vector library the translator is
-built from (`QV/Model/Arith.lean` = `qlasskit/types/qint.py`, `qtype.py`), for *all* widths, all bit
-expressions and all environments: `fill`, `crop`, `~`, `<<`, `>>`, `+`, `-`, `==`, `!=`, `>`, `<`, `<=`,
-`>=`, bitwise operators, and the tie of the comparator table of `translate_expression` to them.
-The statements are about the model with every listed defect repaired (`Quirks.none`); for the model of
-the code as it is they hold on the inputs that do not reach a listed defect (`*_partial`), and each
-listed defect has a witness.  NOT proved: the schoolbook multiplier (`mul_spec`), `mod`, and the
-translator theorem `C01_statement` itself (expressions/statements → library calls); those are tied to
-the code by the correspondence of `harness/c01.py` only.
+What is proved here (**partial**):
+
+* the specification of the bit-vector library the translator is built from (`QV/Model/Arith.lean` =
+  `qlasskit/types/qint.py`, `qtype.py`), for *all* widths, all bit expressions and all environments:
+  `fill`, `crop`, `~`, `<<`, `>>`, `+`, `-`, `*` (the schoolbook loop, `mul_spec`), `% 2^k`
+  (`mod_spec`), `==`, `!=`, `>`, `<`, `<=`, `>=`, bitwise operators, and the tie of the comparator
+  table of `translate_expression` to them.  The statements are about the model with every listed
+  defect repaired (`Quirks.none`, = the code since the `fix:` commits in /repo); for the model of the
+  code before them they hold on the inputs that do not reach a listed defect (`*_partial`), and each
+  listed defect has a witness;
+* the translator theorem for **expressions** over `bool` / `Qint` (`C01_expr`, `C01_expr_args`):
+  whatever `Front.tr` returns has, under every assignment, the value the Lean reference semantics
+  `QV.Sem.semW` (`QV/Model/Sem.lean`) gives the expression.
+
+NOT proved: the statement level of `C01_statement` (Assign / Return / the definition list), tuples,
+`Qchar`, subscripts, and `SemW = Sem` (exact python integers) on in-range inputs; those are tied to
+the code by the correspondence and the oracle of `harness/c01.py` only.
 -/
 namespace QV.C01
 open QV QV.Arith QV.Front
@@ -27,8 +37,12 @@ open QV QV.Arith QV.Front
 program on an assignment of its argument bits: for every return bit either the bit the python function
 returns, or `none` where nothing is claimed – an intermediate left its range and the bit is not a low
 bit determined by wrap-around arithmetic; `none` for the whole row when python raises) and a predicate
-`InSubset` (the documented subset).  The reference semantics is `harness/pysem.py`; it has no Lean
-definition, which is why this statement is **not** proved here. -/
+`InSubset` (the documented subset).  **Not proved.**  For the bool / Qint fragment the reference
+semantics now has a Lean definition (`QV.Sem.semProg`, compared with `harness/pysem.py` every run) and
+the expression level is proved (`C01_expr` below).  Missing for this statement: the induction over
+`trStmt` / `trBody` (that `Env.bind` + `decompose_to_symbols` keep `Sem.EnvOK` for the environment
+`runDefs` builds, and the `Return` coercion through `fill_spec` / `crop_spec`), every type other
+than bool / Qint, and the `none` = "nothing claimed" side (`SemW = Sem` under `inRange`). -/
 def C01_statement
     (SemW : Prog → (String → Bool) → Option (List (Option Bool)))
     (InSubset : Prog → Prop) : Prop :=
@@ -142,38 +156,8 @@ theorem gte_spec (q : Quirks) (ρ : Env) (l r : List BExp)
 theorem sub_spec (ρ : Env) (n : Nat) (l r : List BExp) :
     val ρ (qSub Quirks.none n l r)
       = (val ρ l + 2 ^ (max n (max l.length r.length)) - val ρ r) % 2 ^ (max n (max l.length r.length)) ∧
-    (qSub Quirks.none n l r).length = max n (max l.length r.length) := by
-  have hq : qSub Quirks.none n l r
-      = bitwiseNot (qAdd (bitwiseNot (fill (fill n r).length (fill n l))) (fill n r)) := rfl
-  rw [hq]
-  obtain ⟨r1, hr1⟩ : ∃ x, x = fill n r := ⟨_, rfl⟩
-  obtain ⟨l2, hl2⟩ : ∃ x, x = fill r1.length (fill n l) := ⟨_, rfl⟩
-  rw [← hr1, ← hl2]
-  have lr1 : r1.length = max n r.length := by rw [hr1, fill_length]
-  have ll2 : l2.length = max n (max l.length r.length) := by
-    rw [hl2, fill_length, fill_length, lr1]; omega
-  have vr : val ρ r1 = val ρ r := by rw [hr1, val_fill]
-  have vl : val ρ l2 = val ρ l := by rw [hl2, val_fill, val_fill]
-  have ladd : (qAdd (bitwiseNot l2) r1).length = l2.length := by
-    rw [qAdd_length, bitwiseNot_length]; omega
-  have hnl := val_bitwiseNot ρ l2
-  have ha := val_qAdd ρ (bitwiseNot l2) r1
-  have hn := val_bitwiseNot ρ (qAdd (bitwiseNot l2) r1)
-  have hmax : max (bitwiseNot l2).length r1.length = l2.length := by
-    rw [bitwiseNot_length]; omega
-  rw [hmax] at ha
-  rw [ladd] at hn
-  have hlt := val_lt ρ l2
-  have hrt := val_lt ρ r1
-  have hP : 2 ^ r1.length ≤ 2 ^ l2.length := Nat.pow_le_pow_right (by decide) (by omega)
-  rw [bitwiseNot_length, ladd, ← ll2]
-  refine ⟨?_, rfl⟩
-  rw [← vl, ← vr]
-  have key := sub_arith (val ρ l2) (val ρ r1) (2 ^ l2.length) hlt (by omega)
-  have e1 : val ρ (bitwiseNot l2) = 2 ^ l2.length - 1 - val ρ l2 := by omega
-  rw [e1] at ha
-  rw [← key, ← ha]
-  omega
+    (qSub Quirks.none n l r).length = max n (max l.length r.length) :=
+  qSub_spec ρ n l r
 
 /-- for the code as it is, `sub` is the repaired `sub` whenever the left operand (after `fill` to the
 class) is not the narrower one -/
@@ -207,6 +191,49 @@ theorem bitwise_ops (ρ : Env) (a b : BExp) :
     (opAnd a b).eval ρ = (a.eval ρ && b.eval ρ) ∧ (opOr a b).eval ρ = (a.eval ρ || b.eval ρ) ∧
     (opXor a b).eval ρ = Bool.xor (a.eval ρ) (b.eval ρ) := by
   simp [opAnd, opOr, opXor, BExp.eval, evalAnd, evalOr, evalXor]
+
+/-! ## the multiplier and `%` -/
+
+/-- the schoolbook loop of `QintImp.mul` (rows = bits of the left operand, each row a ripple of full
+adders into `product` at offset `i`, final carry stored at `i + m`): the exact product on `n + m`
+bits, for operands of any two widths -/
+theorem schoolbook_spec (ρ : Env) (l r : List BExp) :
+    val ρ (schoolbook l r) = val ρ l * val ρ r ∧ (schoolbook l r).length = l.length + r.length :=
+  val_schoolbook ρ l r
+
+/-- `QintImp.mul` with every product through the schoolbook loop (the repaired code; `Quirks.none`),
+for all operand widths, all `is_const` outcomes `cl`, `cr` and all environments: the result type has
+`t = (qMul …).1` bits (`__mul_sizing` of the two operand widths after the constant / width fills),
+the bits are the `n + m` product bits cropped / filled to `t`, and their value is
+`(val l * val r) mod 2^t`.  When the operands have the widths of their types, `t` is
+`__mul_sizing(max, max)` – the rule `mul_sizing(2·max)` of the reference semantics. -/
+theorem mul_spec (ρ : Env) (cl cr : Bool) (nl nr : Nat) (l r : List BExp) :
+    val ρ (qMul Quirks.none cl cr nl nr l r).2
+      = (val ρ l * val ρ r) % 2 ^ (qMul Quirks.none cl cr nl nr l r).1 ∧
+    (qMul Quirks.none cl cr nl nr l r).2.length = (qMul Quirks.none cl cr nl nr l r).1 ∧
+    (l.length = nl → r.length = nr →
+      (qMul Quirks.none cl cr nl nr l r).1 = mulSizing (max nl nr) (max nl nr)) :=
+  qMul_spec ρ cl cr nl nr l r
+
+/-- for the model of the code with the `mul_even_const` shortcut still present, `mul` is the
+schoolbook `mul` whenever neither operand is a constant -/
+theorem mul_partial (q : Quirks) (nl nr : Nat) (l r : List BExp) :
+    qMul q false false nl nr l r = qMul Quirks.none false false nl nr l r := by
+  simp [qMul, Quirks.none]
+
+example : (qMul Quirks.none false true 2 2 [.sym "a.0", .sym "a.1"] (qintConst 2 2)).1 = 4 := by decide
+
+/-- `QintImp.mod` (`x & (y - 1)`, `y - 1` by `QintImp.sub` on the class of `nr ≥ 1` bits) for a right
+operand whose value is a power of two `2^k` (the literal case the repaired front end accepts):
+`val x mod 2^k`, operands of any widths -/
+theorem mod_spec (ρ : Env) (nr : Nat) (l r : List BExp) (k : Nat) (hn : 0 < nr)
+    (hr : val ρ r = 2 ^ k) :
+    val ρ (qMod Quirks.none nr l r) = val ρ l % 2 ^ k ∧
+    (qMod Quirks.none nr l r).length = max l.length (max nr r.length) :=
+  qMod_spec ρ nr l r k hn hr
+
+example : ∃ (ρ : Env) (nr : Nat) (r : List BExp) (k : Nat), 0 < nr ∧ val ρ r = 2 ^ k :=
+  ⟨fun _ => false, 4, qintConst 4 4, 2, by decide, by decide⟩
 
 /-! ## the comparator table of `translate_expression` (generated from the source) -/
 
@@ -286,6 +313,70 @@ theorem char_eq_witness :
     (qEq [.sym "c.0", .sym "c.1", .sym "c.2"] (qintConst 2 3)).eval
         (envOf [("c.0", true), ("c.1", true), ("c.2", true)]) = false := by
   decide
+
+/-! ## the translator theorem on the bool / Qint expression fragment
+
+Reference semantics: `QV.Sem.semW` (`lean/QV/Model/Sem.lean`; fixed-width unsigned: every operator
+computed exactly on the operand values, then reduced modulo `2^w`, `w` from the typing rules written
+there).  It is validated on every generated program against the independent python oracle
+`harness/pysem.py` (driver op `c01.semw`). -/
+
+/-- **C01_expr** – translator theorem for expressions.  For every expression `e` of the fragment
+`Sem.inFrag` (variables, bool / int constants, `not`, `~`, `and` / `or`, if-expressions, the six
+comparisons, `+ - * % ^ & | << >>`), every binding environment `env` whose variables denote the
+values `σ` gives them under the assignment `ρ` of the symbols (`Sem.EnvOK`), and every state of the
+translator monad: if the model of `translate_expression` (`Front.tr`, all listed defects repaired)
+succeeds with type `t` and value `v`, then the reference semantics `SemW` is defined on `e`, and
+either `t = bool`, `v` is one expression and its truth value under `ρ` is `SemW`'s bool, or
+`t = Qint[w]`, `v` is a list of exactly `w` bit expressions and their little-endian value under `ρ`
+is `SemW`'s integer (of the same width `w`).  By structural induction over `e`, one lemma per
+syntactic form (`QV/Proofs/Front*.lean`), on top of the library theorems above (`add_spec`,
+`sub_spec`, `mul_spec`, `mod_spec`, shifts, bitwise, comparators). -/
+theorem C01_expr (ρ : Env) (env : Front.Env) (σ : Sem.SEnv) (henv : Sem.EnvOK ρ env σ)
+    (e : PExp) (hfrag : Sem.inFrag e = true) (s s' : St) (t : Ty) (v : Val)
+    (h : (tr Quirks.none env e).run s = .ok ((t, v), s')) :
+    ∃ sv, Sem.semW σ e = some sv ∧
+      ((∃ a : BExp, t = .bool ∧ v = .atom a ∧ sv = .bool (a.eval ρ)) ∨
+       (∃ bits : List BExp, t = .qint bits.length ∧ v = Val.ofBits bits ∧
+          sv = .int bits.length (val ρ bits))) := by
+  obtain ⟨sv, hs, hd⟩ := Sem.sound_all ρ env σ henv e hfrag s t v s' h
+  refine ⟨sv, hs, ?_⟩
+  cases hd with
+  | bool a => exact Or.inl ⟨a, rfl, rfl, rfl⟩
+  | int bits => exact Or.inr ⟨bits, rfl, rfl, rfl⟩
+
+/-- the environment `translate_ast` starts from (arguments of type `bool` / `Qint[w]`, `w ≠ 1`)
+satisfies the hypothesis of `C01_expr` with `σ` = the arguments decoded from their bits
+(`Sem.argsEnv`: `a` is `Σ ρ("a.i")·2^i`) -/
+theorem C01_expr_args_env (ρ : Env) (args : List (String × Ty))
+    (hargs : ∀ p ∈ args, Sem.argTyOK p.2 = true) :
+    Sem.EnvOK ρ (args.foldl (fun env (n, t) => env ++ [⟨n, t, t.names n⟩]) []) (Sem.argsEnv args ρ) :=
+  Sem.envOK_args ρ args hargs
+
+/-- `C01_expr` for an expression over the arguments of a function: whatever the translator returns
+for `e` in the initial environment has, under every assignment `ρ` of the argument bits, the
+fixed-width python value `SemW` gives `e` on the decoded arguments -/
+theorem C01_expr_args (ρ : Env) (args : List (String × Ty))
+    (hargs : ∀ p ∈ args, Sem.argTyOK p.2 = true)
+    (e : PExp) (hfrag : Sem.inFrag e = true) (s s' : St) (t : Ty) (v : Val)
+    (h : (tr Quirks.none (args.foldl (fun env (n, t) => env ++ [⟨n, t, t.names n⟩]) []) e).run s
+          = .ok ((t, v), s')) :
+    ∃ sv, Sem.semW (Sem.argsEnv args ρ) e = some sv ∧
+      ((∃ a : BExp, t = .bool ∧ v = .atom a ∧ sv = .bool (a.eval ρ)) ∨
+       (∃ bits : List BExp, t = .qint bits.length ∧ v = Val.ofBits bits ∧
+          sv = .int bits.length (val ρ bits))) :=
+  C01_expr ρ _ _ (Sem.envOK_args ρ args hargs) e hfrag s s' t v h
+
+/-- the hypotheses are satisfiable: `a * 3 - b < 5` over `a : Qint[2]`, `b : Qint[3]` is in the
+fragment, its arguments are covered, and the translator accepts it -/
+example :
+    let args : List (String × Ty) := [("a", .qint 2), ("b", .qint 3)]
+    let e : PExp := .cmp "Lt" (.bin "sub" (.bin "mul" (.name "a") (.cint 3)) (.name "b")) (.cint 5)
+    (∀ p ∈ args, Sem.argTyOK p.2 = true) ∧ Sem.inFrag e = true ∧
+    ∃ v s', (tr Quirks.none (args.foldl (fun env (n, t) => env ++ [⟨n, t, t.names n⟩]) []) e).run {}
+      = .ok ((.bool, v), s') := by
+  refine ⟨by decide, by decide, ?_⟩
+  exact ⟨_, _, rfl⟩
 
 /-! ## what is proved of the property: the library part -/
 
